@@ -5,7 +5,7 @@ from common import hx
 from hexlib import HexaryTrie, keccak, Boom, BOOMS, boom, WriteFailed, FailingDict
 
 ID = "C04"
-LEAN_IMPORTS = ["PyTrie.Props.C04", "PyTrie.Props.C04History", "PyTrie.Props.RawLevel", "PyTrie.Props.NonVacuity", "PyTrie.Props.FreeExec", "PyTrie.Props.NonVacuity8", "PyTrie.Props.C04Shared", "PyTrie.Props.NonVacuity10", "PyTrie.Props.HistoryFailCommit"]
+LEAN_IMPORTS = ["PyTrie.Props.C04", "PyTrie.Props.C04History", "PyTrie.Props.RawLevel", "PyTrie.Props.NonVacuity", "PyTrie.Props.FreeExec", "PyTrie.Props.NonVacuity8", "PyTrie.Props.C04Shared", "PyTrie.Props.NonVacuity10", "PyTrie.Props.HistoryFailCommit", "PyTrie.Props.HistoryFailOp", "PyTrie.Props.NonVacuity15"]
 THEOREMS = [
     "PyTrie.Props.C04.set_writes_addressed",
     "PyTrie.Props.C04.delete_writes_addressed",
@@ -43,6 +43,14 @@ THEOREMS = [
     "PyTrie.Props.NonVacuity10.reads_evaluated",
     "PyTrie.Props.Free.fail_block_step",
     "PyTrie.Props.Free.history_fail_commit_world",
+    "PyTrie.Props.Free.fail_op_step",
+    "PyTrie.Props.Free.history_fail_op_world",
+    "PyTrie.Props.Free.history_fail_op_lockstep",
+    "PyTrie.Props.Free.history_fail_op_get",
+    "PyTrie.Props.NonVacuity15.gsteps_good",
+    "PyTrie.Props.NonVacuity15.world_witness",
+    "PyTrie.Props.NonVacuity15.lockstep_witness",
+    "PyTrie.Props.NonVacuity15.evaluated",
 ]
 RULE = ("interleaved histories of several non-pruning tries over ONE shared database: set/delete on any trie, fresh tries "
         "opened at earlier roots, at_root snapshot reads, squash_changes blocks (normal exit, exception after n operations, n-th "
